@@ -91,7 +91,8 @@ func hasAddrBase64(cfg map[string]any) bool { return cfg["bytes"] == "base64" }
 func init() {
 	// ------------------------------------------------------------------ C02
 	register(&Suite{
-		Prop: "C02",
+		Prop:     "C02",
+		Parallel: true,
 		Gen: func(c *Ctx) {
 			r := c.R
 			n := 1200
@@ -300,7 +301,8 @@ func init() {
 
 	// ------------------------------------------------------------------ C03
 	register(&Suite{
-		Prop: "C03",
+		Prop:     "C03",
+		Parallel: true,
 		Gen: func(c *Ctx) {
 			r := c.R
 			n := 500
@@ -454,7 +456,21 @@ func init() {
 
 	// ------------------------------------------------------------------ C11
 	register(&Suite{
-		Prop: "C11",
+		Prop:     "C11",
+		Parallel: true,
+		ParKey: func(impl any) any {
+			m, isMap := impl.(map[string]any)
+			if !isMap {
+				return impl
+			}
+			o := map[string]any{}
+			for k, v := range m {
+				if k != "alloc" {
+					o[k] = v
+				}
+			}
+			return o
+		},
 		Gen: func(c *Ctx) {
 			r := c.R
 			n := 700
